@@ -194,6 +194,7 @@ impl Session {
         if self.abs {
             let s = match ctx.node(t) {
                 Node::Const(r) => r.smt_real(),
+                Node::FConst(b) => exact_real_of_f64(f64::from_bits(*b)),
                 _ => {
                     self.pending += &format!("(declare-const v{t} Real)\n(declare-const nan{t} Bool)\n");
                     format!("v{t}")
@@ -218,6 +219,19 @@ impl Session {
                 }
                 Node::Const(r) => {
                     let s = self.konst(&r);
+                    self.names.insert(n, s);
+                }
+                Node::FConst(b) => {
+                    let s = if self.mode == Mode::R {
+                        exact_real_of_f64(f64::from_bits(b))
+                    } else {
+                        let (e, m) = self.float_bits;
+                        if (e, m) == (11, 53) {
+                            format!("(fp #b{} #b{:011b} #b{:052b})", b >> 63, (b >> 52) & 0x7ff, b & ((1u64 << 52) - 1))
+                        } else {
+                            format!("((_ to_fp {e} {m}) RNE {})", exact_real_of_f64(f64::from_bits(b)))
+                        }
+                    };
                     self.names.insert(n, s);
                 }
                 Node::Neg(a) => {
@@ -329,7 +343,7 @@ impl Session {
     /// comparison between two terms in the session's number semantics
     pub fn cmp(&mut self, ctx: &Ctx, k: Cmp, a: u32, b: u32) -> String {
         if self.abs {
-            let nan = |t: u32| if matches!(ctx.node(t), Node::Const(_)) { "false".to_string() } else { format!("nan{t}") };
+            let nan = |t: u32| if matches!(ctx.node(t), Node::Const(_) | Node::FConst(_)) { "false".to_string() } else { format!("nan{t}") };
             let (na, nb) = (nan(a), nan(b));
             let (va, vb) = (self.term(ctx, a), self.term(ctx, b));
             let o = match k {
@@ -713,4 +727,109 @@ pub fn one_shot(solver: &str, script: &str, timeout_ms: u64) -> Answer {
         }
         Err(_) => Answer::Unknown(format!("{solver}: hard timeout")),
     }
+}
+
+/// exact SMT-LIB Real text of a finite double: integer significand times / over a power of two written out
+/// in decimal (arbitrary size)
+pub fn exact_real_of_f64(f: f64) -> String {
+    if f == 0.0 {
+        return "0.0".into();
+    }
+    let bits = f.to_bits();
+    let neg = bits >> 63 == 1;
+    let exp = ((bits >> 52) & 0x7ff) as i32;
+    let frac = bits & ((1u64 << 52) - 1);
+    let (m, e) = if exp == 0 { (frac, -1074) } else { (frac | (1u64 << 52), exp - 1075) };
+    // decimal digits of 2^|e|
+    let mut digits: Vec<u8> = vec![1];
+    for _ in 0..e.unsigned_abs() {
+        let mut carry = 0u8;
+        for d in digits.iter_mut() {
+            let v = *d * 2 + carry;
+            *d = v % 10;
+            carry = v / 10;
+        }
+        if carry > 0 {
+            digits.push(carry);
+        }
+    }
+    let pow: String = digits.iter().rev().map(|d| (b'0' + d) as char).collect();
+    let body = if e >= 0 { format!("(* {m}.0 {pow}.0)") } else { format!("(/ {m}.0 {pow}.0)") };
+    if neg {
+        format!("(- {body})")
+    } else {
+        body
+    }
+}
+
+/// approximate f64 of a Real model value of any size (numerators / denominators far beyond i128 included):
+/// decimal strings are read through their leading digits and their length
+pub fn sx_to_f64_approx(v: &str) -> Option<f64> {
+    fn num(a: &str) -> Option<f64> {
+        let a = a.trim_end_matches('?');
+        let (neg, a) = match a.strip_prefix('-') {
+            Some(r) => (true, r),
+            None => (false, a),
+        };
+        let (ip, fp) = a.split_once('.').unwrap_or((a, ""));
+        if ip.is_empty() || !ip.bytes().all(|b| b.is_ascii_digit()) || !fp.bytes().all(|b| b.is_ascii_digit()) {
+            return None;
+        }
+        let ip = ip.trim_start_matches('0');
+        let v = if ip.len() > 300 {
+            f64::INFINITY
+        } else if ip.len() > 17 {
+            let lead: f64 = ip[..17].parse().ok()?;
+            lead * 10f64.powi((ip.len() - 17) as i32)
+        } else {
+            format!("{}.{}", if ip.is_empty() { "0" } else { ip }, if fp.is_empty() { "0" } else { fp }).parse().ok()?
+        };
+        Some(if neg { -v } else { v })
+    }
+    /// (mantissa, decimal exponent) so that quotients of huge integers do not overflow
+    fn big(a: &str) -> Option<(f64, i32)> {
+        let a = a.trim_end_matches('?');
+        let (neg, a) = match a.strip_prefix('-') {
+            Some(r) => (true, r),
+            None => (false, a),
+        };
+        let (ip, fp) = a.split_once('.').unwrap_or((a, ""));
+        let digits: String = format!("{}{}", ip, fp);
+        if digits.is_empty() || !digits.bytes().all(|b| b.is_ascii_digit()) {
+            return None;
+        }
+        let shift = fp.len() as i32;
+        let d = digits.trim_start_matches('0');
+        if d.is_empty() {
+            return Some((0.0, 0));
+        }
+        let take = d.len().min(17);
+        let m: f64 = d[..take].parse().ok()?;
+        Some((if neg { -m } else { m }, (d.len() - take) as i32 - shift))
+    }
+    fn go(s: &Sx) -> Option<(f64, i32)> {
+        match s {
+            Sx::Atom(a) => big(a),
+            Sx::List(v) => match v.as_slice() {
+                [Sx::Atom(o), x] if o == "-" => go(x).map(|(m, e)| (-m, e)),
+                [Sx::Atom(o), x, y] if o == "/" => {
+                    let ((a, ea), (b, eb)) = (go(x)?, go(y)?);
+                    if b == 0.0 {
+                        None
+                    } else {
+                        Some((a / b, ea - eb))
+                    }
+                }
+                [Sx::Atom(o), x, y] if o == "*" => {
+                    let ((a, ea), (b, eb)) = (go(x)?, go(y)?);
+                    Some((a * b, ea + eb))
+                }
+                [Sx::Atom(o), x] if o == "to_real" => go(x),
+                _ => None,
+            },
+        }
+    }
+    let _ = num;
+    let (m, e) = go(&parse_sx(v)?)?;
+    Some(if e > 320 { m * f64::INFINITY } else if e < -400 { m * 0.0 } else { m * 10f64.powi(e.clamp(-300, 300)) * 10f64.powi(e - e.clamp(-300, 300)) })
 }
